@@ -267,7 +267,11 @@ def _execute(plan, tr):
         only_genuine = len(genuine) == len(collected)
         no_dups = len({c[0] for c in collected}) == len(collected)
         single_split = any(all(c[0] in sp_["shares"] for c in collected) for sp_ in splits) if only_genuine else False
-        pw = splits[collected[0][1]]["pw"] if plan.get("recover_pass") is None else bytes.fromhex(plan["recover_pass"])
+        # the recoverer types the passphrase of the split it is recovering: the split that holds every genuine share text handed in (a share
+        # of a split made with a replayed RNG can be, word for word, a share of the other split too), else the first arrival's split
+        own = [s_i for s_i, sp_ in enumerate(splits) if genuine and all(c[0] in sp_["shares"] for c in genuine)]
+        pw_split = own[0] if own else collected[0][1]
+        pw = splits[pw_split]["pw"] if plan.get("recover_pass") is None else bytes.fromhex(plan["recover_pass"])
         try:
             got = ShareSet.recover_mnemonic(texts, pw)
             outcome = "returned"
@@ -294,6 +298,9 @@ def _execute(plan, tr):
             # which split can this be?
             cands = [s for s in by_split if len(by_split[s]) >= splits[s]["spec"]["k"]]
             ok_pw = plan.get("recover_pass") is None
+            if ok_pw and cands and all(splits[s_]["pw"].rstrip(b"\x00") != pw.rstrip(b"\x00") for s_ in cands):
+                # every split whose threshold is met was encrypted under another passphrase than the one typed (ambiguous arrivals)
+                ok_pw = False
             if ok_pw:
                 if not any(got == splits[s]["mnemonic"] for s in range(len(splits))):
                     fail("V4", "wrong_secret", f"recover_mnemonic returned a mnemonic that is no split's original ({len(collected)} shares, qualities {[c[3] for c in collected]})")
